@@ -220,7 +220,16 @@ def gen_graph(rng: common.Rng, n: int, shape: str) -> list[list[int]]:
     return [sorted(p) for p in preds]
 
 
-def gen_system(rng: common.Rng, shape: str | None = None, kind: str | None = None) -> dict[str, Any]:
+def _budget_row(rng: common.Rng, n_cols: int, budget: Fraction, den: int) -> list[Fraction]:
+    """Random dyadic row with sum |a| <= budget (the denominator is refined until one unit fits)."""
+    if n_cols == 0 or budget <= 0:
+        return [Fraction(0)] * n_cols
+    while int(budget * den) < 1:
+        den *= 2
+    return _coef_row(rng, n_cols, budget, den)
+
+
+def gen_system(rng: common.Rng, shape: str | None = None, kind: str | None = None, private: bool | None = None) -> dict[str, Any]:
     n = rng.pick([2, 2, 3, 3, 4, 5])
     shape = shape or rng.pick(["strong", "strong", "mixed"])
     kind = kind or rng.pick(["lin", "lin", "lin", "lin", "rat", "sin"])
@@ -229,6 +238,7 @@ def gen_system(rng: common.Rng, shape: str | None = None, kind: str | None = Non
     preds = gen_graph(rng, n, shape)
     sizes: dict[str, int] = {"x": rng.pick([1, 1, 2])}
     outs_of: list[list[str]] = []
+    has_z = []
     for k in range(n):
         names = [f"y{k}"]
         sizes[f"y{k}"] = rng.pick([1, 1, 2, 3])
@@ -236,44 +246,77 @@ def gen_system(rng: common.Rng, shape: str | None = None, kind: str | None = Non
             # a second output: read by the same disciplines as the first one, or by nobody
             names.append(f"z{k}")
             sizes[f"z{k}"] = rng.pick([1, 2])
+        has_z.append(len(names) > 1)
         outs_of.append(names)
     z_read = {k: rng.chance(0.7) for k in range(n)}
+    # private self-couplings: an output s_k of discipline k that only discipline k reads (a state the discipline
+    # feeds back to itself), whatever the other couplings of the discipline are (member of a cycle, weakly coupled)
+    private = rng.chance(0.35) if private is None else private
+    priv: dict[int, str] = {}
+    if private:
+        for k in rng.subset(list(range(n)), 0.5) or [rng.randrange(n)]:
+            priv[k] = f"s{k}"
+            sizes[f"s{k}"] = rng.pick([1, 1, 2])
+            outs_of[k].append(f"s{k}")
+    # contraction rates: the rows of the shared couplings may contract much faster than the private recurrences
+    fast_shared = bool(priv) and rng.chance(0.6)
+    shared_rate = rng.pick([Fraction(1, 4), Fraction(1, 8), Fraction(1, 16)]) if fast_shared else Fraction(1)
     discs = []
     for k in range(n):
         ins = []
         for p in preds[k]:
             ins.append(f"y{p}")
-            if len(outs_of[p]) > 1 and z_read[p] and not (p == k):
+            if has_z[p] and z_read[p] and not (p == k):
                 ins.append(f"z{p}")
+        if k in priv:
+            ins.append(priv[k])
         if k == 0 or rng.chance(0.6) or not ins:
             ins.append("x")
+        s_feeds = rng.chance(0.5)  # whether the private variable influences the other outputs of its discipline
         outs = {}
         for o in outs_of[k]:
             m = sizes[o]
             cpl = [i for i in ins if i != "x"]
+            shared = [i for i in cpl if i != priv.get(k)]
             mats: dict[str, list[list[str]]] = {i: [] for i in ins}
             for _ in range(m):
-                ncols = sum(sizes[i] for i in cpl)
-                row = _coef_row(rng, ncols, kbound, den)
+                parts: dict[str, list[Fraction]] = {}
+                if k in priv and o == priv[k]:
+                    # slow private recurrence: most of the budget on the variable itself
+                    own = kbound * rng.pick([Fraction(3, 4), Fraction(7, 8), Fraction(1)])
+                    parts[o] = _budget_row(rng, sizes[o], own, den)
+                    row = _budget_row(rng, sum(sizes[i] for i in shared), kbound - own, den)
+                else:
+                    budget = kbound * shared_rate
+                    if k in priv:
+                        own = budget / 4 if s_feeds else Fraction(0)
+                        parts[priv[k]] = _budget_row(rng, sizes[priv[k]], own, den)
+                        budget -= own
+                    row = _budget_row(rng, sum(sizes[i] for i in shared), budget, den)
                 pos = 0
-                for i in cpl:
-                    mats[i].append([rat(a) for a in row[pos : pos + sizes[i]]])
+                for i in shared:
+                    parts[i] = row[pos : pos + sizes[i]]
                     pos += sizes[i]
+                for i in cpl:
+                    mats[i].append([rat(a) for a in parts[i]])
                 if "x" in ins:
                     mats["x"].append([rat(rng.dyadic(-2, 2, 2)) for _ in range(sizes["x"])])
             outs[o] = {"c": [rat(rng.dyadic(-4, 4, 2)) for _ in range(m)], "m": mats}
         discs.append({"name": f"D{k}", "kind": kind, "ins": ins, "outs": outs})
-    # a pure post-processing output (weakly coupled discipline) sometimes
-    if shape == "mixed" and rng.chance(0.5):
-        k = len(discs)
+    # a chain of weakly coupled post-processing disciplines (the last output is read by nobody)
+    if shape == "mixed" and rng.chance(0.6):
         src = f"y{rng.randrange(n)}"
-        sizes[f"y{k}"] = 1
-        discs.append({
-            "name": f"D{k}",
-            "kind": kind,
-            "ins": [src],
-            "outs": {f"y{k}": {"c": [rat(rng.dyadic(-2, 2, 2))], "m": {src: [[rat(Fraction(1, 8))] * sizes[src]]}}},
-        })
+        for _ in range(rng.pick([1, 1, 2, 3])):
+            k = len(discs)
+            sizes[f"y{k}"] = rng.pick([1, 1, 2])
+            rows = [[rat(a) for a in _budget_row(rng, sizes[src], kbound, den)] for _ in range(sizes[f"y{k}"])]
+            discs.append({
+                "name": f"D{k}",
+                "kind": kind,
+                "ins": [src],
+                "outs": {f"y{k}": {"c": [rat(rng.dyadic(-2, 2, 2)) for _ in range(sizes[f"y{k}"])], "m": {src: rows}}},
+            })
+            src = f"y{k}"
     order = list(range(len(discs)))
     rng.shuffle(order)
     return {"vars": sizes, "discs": discs, "order": order, "shape": shape, "kbound": rat(kbound)}
@@ -327,27 +370,74 @@ def gen_mda(rng: common.Rng, system: dict[str, Any], cls: str | None = None) -> 
         extra["set_after"] = True  # acceleration / relaxation set through the attributes after construction
     if cls in ("MDAChain", "MDAGSNewton") and rng.chance(0.2):
         extra["tol_after"] = True  # tolerance assigned to the settings after construction (cascaded)
+    # the other public ways of passing the same settings
+    if rng.chance(0.25):
+        extra["form"] = "model"  # settings_model=<Class>.Settings(...) instead of keyword arguments
+    if cls == "MDAChain" and rng.chance(0.4):
+        extra["inner_form"] = "model"  # inner_mda_settings=<InnerClass>.Settings(...) instead of a dictionary
+    if cls == "MDAGSNewton" and rng.chance(0.4):
+        extra["inner_form"] = "model"  # gauss_seidel_settings / newton_settings as Pydantic models
+    if rng.chance(0.15) and cls != "MDASequential":
+        extra["api"] = "create_mda"  # gemseo.create_mda instead of MDAFactory().create
     if extra:
         m["extra"] = extra
     return m
 
 
-def gen_case(rng: common.Rng, shape: str | None = None, kind: str | None = None, cls: str | None = None) -> dict[str, Any]:
-    system = gen_system(rng, shape, kind)
+DIRECT_ON_WEAK = ("MDAJacobi", "MDAGaussSeidel", "MDAQuasiNewton", "MDASequential")
+"""Elementary / sequential MDAs that accept weakly coupled disciplines (see notes/C06.md, "direct use");
+MDANewtonRaphson (hence MDAGSNewton and any sequence containing it) rejects them with a documented ValueError."""
+
+
+def gen_groups(rng: common.Rng, case: dict[str, Any]) -> list[dict[str, Any]]:
+    """Process disciplines: some disciplines of the case are wrapped in an MDOChain / MDOParallelChain / MDA
+    that is given to the MDA of the case as ONE discipline (same equations, same solution)."""
+    m = case["mda"]
+    n = len(case["discs"])
+    idx = list(range(n))
+    rng.shuffle(idx)
+    size = rng.pick([2, 2, 3, n])
+    members = idx[: min(size, n)]
+    solver_inner = m.get("inner") in ("MDAJacobi", "MDAGaussSeidel") or m["cls"] in ("MDAJacobi", "MDAGaussSeidel")
+    kinds = ["MDOChain", "MDOChain", "MDOChain", "MDOParallelChain"]
+    if solver_inner and Fraction(m["tol"]) >= Fraction(1, 2**30):
+        kinds.append(rng.pick(["MDAJacobi", "MDAGaussSeidel"]))
+    groups = [{"kind": rng.pick(kinds), "members": members}]
+    rest = idx[len(members):]
+    if len(rest) >= 2 and rng.chance(0.3):
+        groups.append({"kind": rng.pick(["MDOChain", "MDOParallelChain"]), "members": rest[:2]})
+    return groups
+
+
+def gen_case(
+    rng: common.Rng,
+    shape: str | None = None,
+    kind: str | None = None,
+    cls: str | None = None,
+    private: bool | None = None,
+    grouped: bool | None = None,
+) -> dict[str, Any]:
+    system = gen_system(rng, shape, kind, private)
     sizes = system["vars"]
     case = dict(system)
     case["mda"] = gen_mda(rng, system, cls)
-    if system["shape"] != "strong" and case["mda"]["cls"] not in ("MDAJacobi", "MDAChain"):
-        # The elementary MDAs other than MDAJacobi only resolve the strong couplings (MDANewtonRaphson even
-        # rejects weakly coupled disciplines): systems with weakly coupled disciplines are solved through
-        # MDAChain, which is what GEMSEO prescribes. Direct use is exercised by the probe stream only.
-        m = case["mda"]
+    m = case["mda"]
+    direct = m["cls"] in DIRECT_ON_WEAK and not (m["cls"] == "MDASequential" and "MDANewtonRaphson" in m["seq"])
+    if system["shape"] != "strong" and m["cls"] != "MDAChain" and not (direct and (m["cls"] == "MDAJacobi" or rng.chance(0.6))):
+        # MDANewtonRaphson (hence MDAGSNewton, sequences with a Newton stage) rejects weakly coupled disciplines
+        # with a documented ValueError ("use MDAChain"): these are solved through MDAChain, and so is a share of
+        # the other classes. MDAJacobi / MDAGaussSeidel / MDAQuasiNewton / Jacobi-GS sequences are ALSO used
+        # directly on systems with several strongly connected components (inside the property's quantifier).
         inner = {"MDASequential": "MDAGaussSeidel"}.get(m["cls"], m["cls"])
         for k in ("seq", "seq_first_iter"):
             m.pop(k, None)
         m["inner"] = inner
         m["cls"] = "MDAChain"
     m = case["mda"]
+    if (m["cls"] == "MDAChain" or (system["shape"] == "strong" and m["cls"] in ("MDAJacobi", "MDAGaussSeidel"))) and rng.chance(
+        0.3 if grouped is None else float(grouped)
+    ):
+        case["groups"] = gen_groups(rng, case)
     composed = m["cls"] in ("MDAGSNewton", "MDASequential") or m.get("inner") == "MDAGSNewton"
     if composed and m["scaling"].startswith(("initial", "scaled")) and Fraction(m["tol"]) < Fraction(1, 2**16):
         # the second MDA of a sequence starts next to the solution: its *initial* residual is tiny and a
@@ -396,13 +486,51 @@ def _solver_settings(m: dict[str, Any]) -> dict[str, Any]:
     return {"acceleration_method": m["accel"], "over_relaxation_factor": float(Fraction(m["omega"]))}
 
 
+def build_listed(case: dict[str, Any], discs: list) -> list:
+    """The disciplines handed to the MDA, in the listed order; the members of a group are replaced (at the place
+    of the first listed member) by ONE process discipline: MDOChain / MDOParallelChain / a converged sub-MDA."""
+    groups = case.get("groups") or []
+    if not groups:
+        return [discs[k] for k in case["order"]]
+    from gemseo.core.chains.chain import MDOChain
+    from gemseo.core.chains.parallel_chain import MDOParallelChain
+    from gemseo.mda.factory import MDAFactory
+
+    m = case["mda"]
+    gid = {k: gi for gi, g in enumerate(groups) for k in g["members"]}
+    made: dict[int, Any] = {}
+    listed = []
+    for k in case["order"]:
+        if k not in gid:
+            listed.append(discs[k])
+            continue
+        gi = gid[k]
+        if gi in made:
+            continue
+        g = groups[gi]
+        members = [discs[i] for i in g["members"]]
+        if g["kind"] == "MDOChain":
+            made[gi] = MDOChain(members, name=f"G{gi}")
+        elif g["kind"] == "MDOParallelChain":
+            made[gi] = MDOParallelChain(members, name=f"G{gi}", use_threading=True, n_processes=1)
+        else:
+            # an MDA used as a discipline: it solves its own couplings to a tolerance 64 times tighter
+            sub = MDAFactory().create(
+                g["kind"], members, name=f"G{gi}", tolerance=float(Fraction(m["tol"]) / 64), max_mda_iter=200
+            )
+            sub.scaling = m["scaling"]
+            made[gi] = sub
+        listed.append(made[gi])
+    return listed
+
+
 def build_mda(case: dict[str, Any]):
     """Instantiate the disciplines (in the listed order) and the MDA of the case."""
     from gemseo.mda.factory import MDAFactory
 
     m = case["mda"]
     discs = build_disciplines(case)
-    listed = [discs[k] for k in case["order"]]
+    listed = build_listed(case, discs)
     cls = m["cls"]
     base = {"tolerance": float(Fraction(m["tol"])), "max_mda_iter": int(m["max_iter"]), "warm_start": bool(m["warm"])}
     fac = MDAFactory()
@@ -419,31 +547,48 @@ def build_mda(case: dict[str, Any]):
     if extra.get("set_after"):
         solver_settings = {}
 
+    def create(name, disciplines, ctor=None, **settings):
+        """One of the public ways of building an MDA: keyword settings or a settings model, factory or API."""
+        ctor = ctor or {}
+        if extra.get("form") == "model":
+            settings = {"settings_model": fac.get_class(name).Settings(**settings)}
+        if extra.get("api") == "create_mda":
+            from gemseo import create_mda
+
+            return create_mda(name, disciplines, **ctor, **settings)
+        return fac.create(name, disciplines, **ctor, **settings)
+
+    def inner_model(name, settings):
+        """The settings dedicated to an inner MDA: a dictionary, or the Pydantic model of the inner class."""
+        return fac.get_class(name).Settings(**settings) if extra.get("inner_form") == "model" else settings
+
     def qn(settings):
         settings.update({"method": m["method"], "use_gradient": bool(m["use_gradient"])})
         return settings
 
     if cls in SOLVER_CLASSES:
-        mda = fac.create(cls, listed, **base, **solver_settings)
+        mda = create(cls, listed, **base, **solver_settings)
         if extra.get("set_after"):
             mda.acceleration_method = m["accel"]
             mda.over_relaxation_factor = float(Fraction(m["omega"]))
     elif cls == "MDAQuasiNewton":
-        mda = fac.create(cls, listed, **qn(dict(base)))
+        mda = create(cls, listed, **qn(dict(base)))
     elif cls == "MDAGSNewton":
-        mda = fac.create(
+        mda = create(
             cls,
             listed,
+            ctor={
+                "gauss_seidel_settings": inner_model("MDAGaussSeidel", {**_solver_settings(m)}),
+                "newton_settings": inner_model("MDANewtonRaphson", {**_solver_settings(m)}),
+            },
             **base,
-            gauss_seidel_settings={**_solver_settings(m)},
-            newton_settings={**_solver_settings(m)},
         )
         # the first MDA of the sequence only performs a few sweeps
         mda.mda_sequence[0].settings.max_mda_iter = int(m["gs_iter"])
     elif cls == "MDASequential":
         first = fac.create(m["seq"][0], listed, **{**base, "max_mda_iter": int(m["seq_first_iter"])}, **_solver_settings(m))
         second = fac.create(m["seq"][1], listed, **base, **_solver_settings(m))
-        mda = fac.create(cls, listed, mda_sequence=[first, second], **base)
+        mda = create(cls, listed, ctor={"mda_sequence": [first, second]}, **base)
     elif cls == "MDAChain":
         inner = m["inner"]
         if inner in SOLVER_CLASSES:
@@ -452,7 +597,7 @@ def build_mda(case: dict[str, Any]):
             inner_settings = qn({})
         else:
             inner_settings = {}
-        mda = fac.create(cls, listed, **base, inner_mda_name=inner, inner_mda_settings=inner_settings)
+        mda = create(cls, listed, **base, inner_mda_name=inner, inner_mda_settings=inner_model(inner, inner_settings))
     else:
         raise ValueError(cls)
     mda.scaling = m["scaling"]
@@ -491,6 +636,24 @@ def run_impl(case: dict[str, Any]) -> dict[str, Any]:
             r["tb"] = common.short_tb(e)
         obs["runs"].append(r)
     obs["tolerance"] = float(mda.settings.tolerance)
+    # what the MDA says it solves (public attributes): the strong couplings, and the inner MDAs of a composition
+    try:
+        obs["strong_couplings"] = sorted(mda.coupling_structure.strong_couplings)
+        inner = list(getattr(mda, "inner_mdas", None) or getattr(mda, "mda_sequence", None) or [])
+        obs["inner"] = [
+            {
+                "cls": type(im).__name__,
+                "discs": [d.name for d in im.disciplines],
+                "tolerance": float(im.settings.tolerance),
+                "max_mda_iter": int(im.settings.max_mda_iter),
+                "warm_start": bool(im.settings.warm_start),
+                "iterations": len(im.residual_history),
+                "strong_couplings": sorted(im.coupling_structure.strong_couplings),
+            }
+            for im in inner
+        ]
+    except Exception as e:  # noqa: BLE001
+        obs["inner_exc"] = common.exc_class(e) + ": " + repr(e)[:200]
     return obs
 
 
@@ -514,10 +677,64 @@ def effective_transform(case: dict[str, Any]) -> tuple[str, str]:
     return (m["accel"], m["omega"]) if applied else ("NoTransformation", "1")
 
 
+def condensed_graph(case: dict[str, Any]) -> tuple[list[list[int]], list[set[int]]]:
+    """Top-level items (lists of discipline indices: a group is one item) and, per item, the items it reads from
+    (itself included when it reads one of its own outputs: as a process discipline, an input of the group that
+    is also one of its outputs; for MDOChain an output produced before it is read is not an input)."""
+    groups = case.get("groups") or []
+    gid = {k: gi for gi, g in enumerate(groups) for k in g["members"]}
+    items: list[list[int]] = []
+    seen: set[int] = set()
+    kinds: list[str] = []
+    for k in case["order"]:
+        if k in gid:
+            if gid[k] in seen:
+                continue
+            seen.add(gid[k])
+            items.append(list(groups[gid[k]]["members"]))
+            kinds.append(groups[gid[k]]["kind"])
+        else:
+            items.append([k])
+            kinds.append("disc")
+    discs = case["discs"]
+    owner = {o: i for i, it in enumerate(items) for k in it for o in discs[k]["outs"]}
+    reads: list[set[int]] = []
+    for it, kind in zip(items, kinds):
+        produced: set[str] = set()
+        ins: set[str] = set()
+        for k in it:
+            for v in discs[k]["ins"]:
+                if kind == "MDOChain" and v in produced:
+                    continue
+                ins.add(v)
+            produced.update(discs[k]["outs"])
+        reads.append({owner[v] for v in ins if v in owner})
+    return items, reads
+
+
+def has_weak_disciplines(case: dict[str, Any]) -> bool:
+    """Whether some top-level discipline is alone in its strongly connected component and not self-coupled."""
+    items, reads = condensed_graph(case)
+    n = len(items)
+    reach = [set(r) for r in reads]
+    changed = True
+    while changed:
+        changed = False
+        for i in range(n):
+            new = set().union(*[reach[j] for j in reach[i]]) if reach[i] else set()
+            if not new <= reach[i]:
+                reach[i] |= new
+                changed = True
+    return any(i not in reach[i] for i in range(n))
+
+
 def case_class(case: dict[str, Any]) -> str:
     """Stable classification of a case (prefix of the violation keys)."""
     m = case["mda"]
     cls = m["cls"]
+    if cls != "MDAChain" and cls != "MDAJacobi" and case.get("shape") != "strong" and has_weak_disciplines(case):
+        # an elementary MDA that only monitors the strong couplings, used directly on weakly coupled disciplines
+        return f"elementary-mda-on-weak-couplings:{cls}"
     if cls == "MDAChain":
         cls += "/" + m["inner"]
     if cls.endswith("MDAQuasiNewton"):
@@ -638,7 +855,7 @@ def oracle(case: dict[str, Any], obs: dict[str, Any]) -> list[tuple[str, str]]:
         scale = Fraction(math.isqrt(n_c) + 1) * max(Fraction(1), (1 + kb) * dmax)
         bound = tol * scale
         sol_bound = 2 * bound
-        if tight is None and ridx == 0 and case["mda"]["cls"] in SOLVER_CLASSES:
+        if tight is None and ridx == 0 and case["mda"]["cls"] in SOLVER_CLASSES and not case.get("groups"):
             tight = tol * documented_scale(case, sysm, run)
         if tight is not None:
             # elementary solvers: the documented scaling of the first residual ever computed is known exactly;
@@ -697,6 +914,8 @@ def replayable(case: dict[str, Any]) -> bool:
     if any(d["kind"] != "lin" for d in case["discs"]):
         return False
     if m["cls"] not in ALGO_TOKEN or m["accel"] not in ACCEL_TOKEN:
+        return False
+    if case.get("groups"):
         return False
     return m["cls"] == "MDAJacobi" or case["shape"] == "strong"
 
@@ -1007,6 +1226,21 @@ def evaluate(res: Result, cases: list[dict[str, Any]], rng: common.Rng, scope: b
         res.count("warm=" + str(bool(m["warm"])))
         res.count(f"ndisc={len(case['discs'])}")
         res.count("self-coupled=" + str(any(o in d["ins"] for d in case["discs"] for o in d["outs"])))
+        extra = m.get("extra", {})
+        if any(o.startswith("s") for d in case["discs"] for o in d["outs"]):
+            multi = any(o.startswith("s") and len(d["ins"]) > (2 if "x" in d["ins"] else 1) for d in case["discs"] for o in d["outs"])
+            res.count("private-self-coupling=" + ("in-a-coupled-discipline" if multi else "alone"))
+        for g in case.get("groups") or []:
+            res.count(f"process-discipline={g['kind']}/{len(g['members'])}")
+        if case.get("groups"):
+            items, reads = condensed_graph(case)
+            if any(len(it) > 1 and i in reads[i] for i, it in enumerate(items)):
+                res.count("process-discipline:self-coupled")
+        res.count("settings-form=" + extra.get("form", "kwargs") + ("/inner-" + extra["inner_form"] if "inner_form" in extra else ""))
+        if extra.get("api"):
+            res.count("api=" + extra["api"])
+        if kc.startswith("elementary-mda-on-weak-couplings"):
+            res.count("direct-on-weak=" + m["cls"])
         iters = [len(r.get("history", [])) for r in obs.get("runs", [])]
         if any(i >= 2 for i in iters) or m["cls"] in ("MDAQuasiNewton", "MDAChain"):
             res.nontrivial(json.dumps([case["discs"], case["order"], m, case["runs"]], sort_keys=True))
@@ -1098,8 +1332,8 @@ def run(ctx) -> Result:
     corpus = load_corpus()
     evaluate(res, corpus, rng)
     res.count("corpus", len(corpus))
-    n_all = 4000 if ctx.thorough else 360
-    n_rep = 4000 if ctx.thorough else 240
+    n_all = 4000 if ctx.thorough else 300
+    n_rep = 4000 if ctx.thorough else 200
     batch = 200
     import time
 
@@ -1116,6 +1350,21 @@ def run(ctx) -> Result:
                 cases.append(c)
         evaluate(res, cases, rng)
         done += batch
+    # targeted streams (regions the generic stream reaches too rarely)
+    n_t = 600 if ctx.thorough else 50
+    streams = [
+        # a discipline of a cycle that also feeds a private variable back to itself, every class
+        lambda: gen_case(rng, shape="strong", private=True),
+        # compositions: MDAChain over process disciplines (MDOChain / MDOParallelChain / MDA), settings models
+        lambda: gen_case(rng, cls="MDAChain", grouped=rng.chance(0.7)),
+        # elementary MDAs used directly on systems with several strongly connected components
+        lambda: gen_case(rng, shape="mixed", cls=rng.pick(["MDAGaussSeidel", "MDAGaussSeidel", "MDAQuasiNewton", "MDASequential", "MDAJacobi"])),
+    ]
+    for mk in streams:
+        done = 0
+        while done < n_t and time.time() < ctx.deadline:
+            evaluate(res, [mk() for _ in range(min(batch, n_t - done))], rng)
+            done += batch
     evaluate(res, [gen_probe(rng) for _ in range(100 if ctx.thorough else 20)], rng, scope=False)
     return res
 
